@@ -4,8 +4,9 @@
                                Tensor/ProofsBatchLaw.v over a commutative ring R: DLeaf k (entry k of the
                                environment env: an input or a parameter), DConst, DUn u e, DBin o e1 e2 with
                                  u: negate, x+k, x-k, k-x, x*k, slice, pick, broadcast, flip, transpose,
-                                    sum along an axis, reshape / flatten
-                                 o: add, subtract, multiply (B-vs-1 minibatch broadcasting), matmul
+                                    permute_dims, sum along an axis, reshape / flatten
+                                 o: add, subtract, multiply (B-vs-1 minibatch broadcasting), matmul, conv2d,
+                                    x+k, x-k, k-x, x*k with a scalar-shaped tensor k
      erase env e               the program as an xexpr (forward = xeval through the kernel index programs)
      dwf B env e               accepted with minibatch size B (shape rules of core/shape_ops.cc)
      dback / grad env e gy     the reverse sweep: every operator adds to its operands the increments its
@@ -17,8 +18,8 @@
                                per-sample program (a per-sample pick index list reduced to its b-th entry)
      vsum l n                  the elementwise sum of the vectors l (length n)
    Not covered by dexpr: the elementwise functions with analytic derivatives, divide / pow, max / min /
-   logsumexp / max_pool2d (no polynomial tangent over a ring), and concat, permute_dims, conv2d, the
-   ...Scalar variants (per-kernel folding lemmas only: Properties_C03_program.v, GRAD_FOLD). *)
+   logsumexp / max_pool2d (no polynomial tangent over a ring; not in core_family), and concat (per-kernel
+   folding only: Properties_C03_program.v GRAD_FOLD, concat_bw of Tensor/GraphInst.v). *)
 From Coq Require Import List NArith ZArith Bool Arith Lia Ring.
 From PV Require Import Graph.OpFamily Tensor.Kernels Tensor.Index Tensor.KernelProofs Tensor.ProofsBilinear
   Tensor.ProofsGather Tensor.ProofsPerm Tensor.ProofsBatchSample Tensor.ProofsBatchLaw Tensor.AdjCore
